@@ -125,6 +125,15 @@ var propCfgs = []*propCfg{
 		Stub:     []string{"harness builtin vtick (import-time side effect recorder)"},
 		Assumptions: append([]string{"the race detector cannot be used under a serialising scheduler; data races are decided by the simulator's own happens-before monitor, on designated state only (all other memory is outside what this check sees)", "synchronisation invisible to the instrumentation could only add order; the designated state is not protected by un-instrumented primitives"}, simgoAssumptions...),
 	},
+	{
+		ID: "C44", Level: "exploration", SimEngine: "simgo",
+		Quick:    tierCfg{Seeds: 2500, Secs: 70, Batch: 50},
+		Thorough: tierCfg{Seeds: 150000, Secs: 900, Batch: 100},
+		Rule:     "one evaluation = one client session against the real language-server handler behind a real jsonrpc2 connection with the VSCode codec over a simulated byte transport: initialize, then 2..14 (thorough 2..40) messages (didOpen / full-text didChange with documents over ASCII, BMP and astral characters, LF/CR/CRLF endings, valid and invalid Elvish, invalid UTF-8; hover and completion at positions inside, at and beyond line ends, inside CRLF pairs, between surrogate halves and beyond the last line; hover on an unknown document), each message delivered in tape-chosen chunks with optional fake delays, requests pipelined or awaited, diagnostics goroutines scheduled by the simulator, optional disconnect at a tape-chosen byte; distinct = distinct interleaving+fault signature; non-trivial = at least one scheduling choice",
+		Real:     []string{"pkg/lsp handler, server methods, updateDocument and its notification goroutine, walkString / position conversion; github.com/sourcegraph/jsonrpc2 connection and VSCodeObjectCodec; pkg/parse; pkg/edit/complete; pkg/mods/doc"},
+		Stub:     []string{"stdin/stdout: a simulated byte transport (Program.Run's six lines wiring os.Stdin/os.Stdout into the same constructor are not exercised: a real descriptor would stall the bubble)", "the language client"},
+		Assumptions: append([]string{"reference for positions: UTF-16 code units per line, CRLF counted as one line break; offsets between CR and LF are not character boundaries", "jsonrpc2 is un-instrumented: it runs atomically between the scheduling points of the transport and of pkg/lsp"}, simgoAssumptions...),
+	},
 }
 
 func findProp(id string) *propCfg {
